@@ -53,9 +53,50 @@ def gen(rng, k):
     return L
 
 
+def gen_eofdrop(rng, k):
+    """A long-haul latency queue in front of a small bottleneck: segments are
+    still travelling towards the bottleneck when the peer's close (EOF) reaches
+    the sender, which reads it (its channel is gone, the socket still open),
+    closes, is destroyed - or not - before the tail drops are reported."""
+    r = rng
+    lat = r.choice([100000000, 100000000, 30000000])
+    L = ["S 1 queue 0 %d 0" % lat, "S 2 queue %d 0 %d" % (r.choice([10000, 10000, 50000]), r.choice([2000, 2000, 3100, 1600])),
+         "ROUTE : 1 2"]
+    sid = 3
+    for n in (1, 2):
+        a = ncommon.A1 + n - 1
+        L += ["N %d 0 %d" % (n, a), "S %d queue 0 %d 0" % (sid, r.choice([0, 1000000])), "S %d queue 0 %d 0" % (sid + 1, r.choice([0, 1000000])),
+              "OUT 0 %d : %d" % (a, sid), "IN 0 %d : %d" % (a, sid + 1)]
+        sid += 2
+    ops = ["acc_new 1 1", "tcp_open 1 1", "tcp_bind 1 0 0 1337", "listen 1 10", "accept2 1 10 102",
+           "tcp_new 11 2", "tcp_connect 11 0 %d 1337 105" % ncommon.A1]
+    H = {102: [], 105: []}
+    if r.random() < 0.8:
+        H[105].append("tcp_read 11 106 : %d" % r.choice([100, 1]))
+        H[106] = r.choice([[], [], ["tcp_read 11 109 : 10"], ["tcp_close 11"], ["tcp_destroy 11"]])
+    nseg = r.choice([2, 2, 3, 5])
+    H[105].append("tcp_write 11 107 : %s" % " ".join("%d 1475" % (5 + i) for i in range(nseg)))
+    H[107] = r.choice([[], ["tcp_write 11 108 : 9 1475"]])
+    if r.random() < 0.3:
+        H[102].append("tcp_read 10 103 : 5000")
+    # the accepted side goes away early
+    tclose = r.choice([lat + 50000000, lat + 50000000, lat + 5000000, 2 * lat + 30000000])
+    ops += ["expires_at 7 %d" % tclose, "async_wait 7 110"]
+    H[110] = [r.choice(["tcp_close 10", "tcp_close 10", "tcp_destroy 10"])]
+    if r.random() < 0.7:
+        ops += ["expires_at 8 %d" % (r.choice([4, 3, 8]) * lat), "async_wait 8 111"]
+        H[111] = [r.choice(["tcp_close 11", "tcp_close 11", "tcp_destroy 11", "tcp_cancel 11"])]
+    L += ["M " + o for o in ops]
+    for h in sorted(H):
+        L += ["H %d %s" % (h, o) for o in H[h]]
+    L.append("M run")
+    return L
+
+
 def generate(rng, tier):
     n = 50 if tier == "quick" else 1500
-    return [("l%d" % k, gen(rng, k)) for k in range(n)]
+    ne = 12 if tier == "quick" else 300
+    return [("l%d" % k, gen(rng, k)) for k in range(n)] + [("e%d" % k, gen_eofdrop(rng, k)) for k in range(ne)]
 
 
 def handler_oracle(lines, trace):
